@@ -173,6 +173,26 @@ func main() {
 				fmt.Printf("   %s %s base=%s val=%s\n", ef.Kind, ef.Target, ef.Base, trunc(ef.Val.String(), 120))
 			}
 		}
+	case "asm":
+		c := NewCtx("adhoc", tier, repo, verif)
+		a := c.Asm()
+		if len(pos) == 0 {
+			for n, f := range a.Funcs {
+				fmt.Println(n, f.File, len(f.Instrs))
+			}
+			for k, d := range a.Data {
+				fmt.Println("DATA", k, d.Size)
+			}
+			break
+		}
+		f := a.Funcs[pos[0]]
+		if f == nil {
+			fmt.Println("no such TEXT")
+			os.Exit(2)
+		}
+		for _, in := range f.Instrs {
+			fmt.Printf("%4d  %s\n", in.Line, in.String())
+		}
 	case "describe":
 		b, _ := json.MarshalIndent(props, "", " ")
 		fmt.Println(string(b))
